@@ -82,6 +82,21 @@ Proof.
   - simpl in Hv. destruct a; try discriminate. eauto.
 Qed.
 
+Lemma fn_args_remove_ws args t d : fn_args args = t :: d -> remove_whitespace args <> [].
+Proof.
+  unfold fn_args, remove_whitespace. induction args as [|a args IH]; [discriminate|].
+  cbn [filter]. destruct (negb (is_ws a)); [discriminate|]. cbn [andb]. exact IH.
+Qed.
+
+Lemma has_var_var_ws n ln args :
+  String.eqb ln "var" = true -> has_var (TFunc n ln args) = true ->
+  exists first rest, remove_whitespace args = first :: rest.
+Proof.
+  intros Hln Hv. destruct (has_var_var _ _ _ Hln Hv) as (v & lv & d & Ea).
+  pose proof (fn_args_remove_ws _ _ _ Ea) as N.
+  destruct (remove_whitespace args) as [|first rest]; [congruence|eauto].
+Qed.
+
 Section VarProofs.
   Variable env : string -> list tok.
   Notation resolve_var := (resolve_var env).
@@ -120,8 +135,8 @@ Section VarProofs.
     destruct (has_var t) eqn:E; simpl; auto.
     destruct t; try discriminate.
     destruct (String.eqb ln "var") eqn:Hln; simpl.
-    - destruct (has_var_var _ _ _ Hln E) as (v & lv & default & Ea). rewrite Ea.
-      destruct (str_in (underscore v) ps); [discriminate|].
+    - destruct (has_var_var_ws _ _ _ Hln E) as (first & rest & Ea). rewrite Ea.
+      destruct (str_in (var_key (tok_value first)) ps); [discriminate|].
       destruct (subst_each _ _); discriminate.
     - destruct (rebuild (resolve_var fuel ps) args) as [arguments|]; try discriminate.
       destruct (resolve_var fuel ps (TFunc n ln arguments)) as [[|[|]]|]; discriminate.
@@ -166,14 +181,14 @@ Section VarProofs.
     destruct (has_var t) eqn:Hv; simpl in H; [|discriminate].
     destruct t; try discriminate.
     destruct (String.eqb ln "var") eqn:Hln; simpl in H.
-    - destruct (has_var_var _ _ _ Hln Hv) as (v & lv & default & Ea). rewrite Ea in H.
-      destruct (str_in (underscore v) ps) eqn:Hc.
-      + inversion H; subst. apply S_cycle with (x := v); auto. unfold impl_var_name. now rewrite Ea.
+    - destruct (has_var_var_ws _ _ _ Hln Hv) as (first & rest & Ea). rewrite Ea in H.
+      destruct (str_in (var_key (tok_value first)) ps) eqn:Hc.
+      + inversion H; subst. apply S_cycle with (x := tok_value first); auto. unfold impl_var_name. now rewrite Ea.
       + destruct (subst_each _ _) as [l|] eqn:Es; try discriminate. inversion H; subst.
-        apply S_var with (x := v); auto.
+        apply S_var with (x := tok_value first); auto.
         * unfold impl_var_name. now rewrite Ea.
-        * unfold impl_key, impl_fallback. rewrite Ea. simpl tl.
-          destruct (env (underscore v)); eapply subst_each_sound; eauto.
+        * unfold impl_key, impl_fallback. rewrite Ea. cbn [tl].
+          destruct (env (var_key (tok_value first))); eapply subst_each_sound; eauto.
     - destruct (rebuild (resolve_var f ps) args) as [arguments|] eqn:Er; try discriminate.
       pose proof (rebuild_sound f ps args arguments (IH ps) Er) as HL.
       assert (Hfree : has_var (TFunc n ln arguments) = false).
@@ -222,17 +237,27 @@ Section VarProofs.
 
   (* a reference to a defined property ignores its fallback; a reference to an undefined one is its own fallback *)
   Theorem fallback_unused_when_defined fuel ps n ln v lv fb1 fb2 :
-    env (underscore v) <> [] ->
+    env (var_key v) <> [] ->
     has_var (TFunc n ln (TIdent v lv :: TLit "," :: fb1)) = true ->
     has_var (TFunc n ln (TIdent v lv :: TLit "," :: fb2)) = true -> String.eqb ln "var" = true ->
     resolve_var fuel ps (TFunc n ln (TIdent v lv :: TLit "," :: fb1)) =
     resolve_var fuel ps (TFunc n ln (TIdent v lv :: TLit "," :: fb2)).
   Proof.
     intros Hd H1 H2 Hln. destruct fuel; [reflexivity|]. cbn [C07Var.resolve_var].
-    rewrite H1, H2, Hln. cbn [negb]. unfold fn_args. cbn [filter is_ws is_comma is_lit negb andb].
-    rewrite String.eqb_refl. cbn [negb andb].
-    destruct (str_in (underscore v) ps); [reflexivity|].
-    destruct (env (underscore v)); [congruence|reflexivity].
+    rewrite H1, H2, Hln. cbn [negb]. unfold remove_whitespace. cbn [filter is_ws negb tok_value].
+    destruct (str_in (var_key v) ps); [reflexivity|].
+    destruct (env (var_key v)); [congruence|reflexivity].
+  Qed.
+
+  (* a reference to an undefined property is its own fallback: the textual remainder after the first comma *)
+  Theorem fallback_used_when_undefined fuel ps n ln v lv fb :
+    env (var_key v) = [] -> str_in (var_key v) ps = false ->
+    has_var (TFunc n ln (TIdent v lv :: TLit "," :: fb)) = true -> String.eqb ln "var" = true ->
+    resolve_var (S fuel) ps (TFunc n ln (TIdent v lv :: TLit "," :: fb)) =
+    match subst_each (resolve_var fuel ps) (remove_whitespace fb) with Some l => Some (RToks l) | None => None end.
+  Proof.
+    intros Hu Hc H1 Hln. cbn [C07Var.resolve_var]. rewrite H1, Hln. cbn [negb].
+    unfold remove_whitespace. cbn [filter is_ws negb tok_value tl]. rewrite Hc, Hu. reflexivity.
   Qed.
 
   (* ---- fuel suffices when the definitions are acyclic *)
@@ -298,27 +323,31 @@ Section VarProofs.
     { intro ps'. apply (common_bound (fun a f => exists x, resolve_var f ps' a = Some x)).
       rewrite Forall_forall in *. intros a Ha. apply IHargs; auto. }
     destruct (String.eqb ln "var") eqn:Hln.
-    - destruct (has_var_var _ _ _ Hln Hv) as (v & lv & default & Ea).
+    - destruct (has_var_var_ws _ _ _ Hln Hv) as (first & rest & Ea).
       rewrite Ea in Hname. apply Nat.ltb_lt in Hname.
-      destruct (str_in (underscore v) ps) eqn:Hc.
+      set (k := var_key (tok_value first)) in *.
+      destruct (str_in k ps) eqn:Hc.
       { exists 1%nat. intros f Hf. destruct f as [|f]; [lia|].
-        cbn [C07Var.resolve_var]. rewrite Hv, Hln, Ea, Hc. simpl. eauto. }
-      destruct (env (underscore v)) as [|e0 erest] eqn:Ee.
+        cbn [C07Var.resolve_var]. rewrite Hv, Hln, Ea. fold k. rewrite Hc. simpl. eauto. }
+      destruct (env k) as [|e0 erest] eqn:Ee.
       + destruct (Bargs ps) as [Fa HFa].
         exists (S Fa). intros f Hf. destruct f as [|f]; [lia|].
-        cbn [C07Var.resolve_var]. rewrite Hv, Hln, Ea, Hc, Ee. cbn [negb].
-        destruct (subst_each_total Fa ps default) with (f := f) as [r Hr]; [|lia|].
-        * intros u Hu. apply HFa. apply in_fn_args. rewrite Ea. now right.
+        cbn [C07Var.resolve_var]. rewrite Hv, Hln, Ea. fold k. rewrite Hc, Ee. cbn [negb].
+        destruct (subst_each_total Fa ps (tl rest)) with (f := f) as [r Hr]; [|lia|].
+        * intros u Hu. apply HFa.
+          assert (In u (remove_whitespace args)).
+          { rewrite Ea. right. destruct rest; [destruct Hu|now right]. }
+          unfold remove_whitespace in H. apply filter_In in H. tauto.
         * rewrite Hr. eauto.
       + assert (Benv : exists F, forall u, In u (e0 :: erest) -> forall f, (F <= f)%nat ->
-                         exists x, resolve_var f (ps ++ [underscore v]) u = Some x).
-        { apply (common_bound (fun u f => exists x, resolve_var f (ps ++ [underscore v]) u = Some x)).
-          pose proof (Hranked (underscore v)) as Hk. rewrite Ee in Hk. rewrite Forall_forall in *.
+                         exists x, resolve_var f (ps ++ [k]) u = Some x).
+        { apply (common_bound (fun u f => exists x, resolve_var f (ps ++ [k]) u = Some x)).
+          pose proof (Hranked k) as Hk. rewrite Ee in Hk. rewrite Forall_forall in *.
           intros u Hu. apply (IHn _ Hname u (Hk u Hu)). }
         destruct Benv as [Fe HFe].
         exists (S Fe). intros f Hf. destruct f as [|f]; [lia|].
-        cbn [C07Var.resolve_var]. rewrite Hv, Hln, Ea, Hc, Ee. cbn [negb].
-        destruct (subst_each_total Fe (ps ++ [underscore v]) (e0 :: erest) HFe f) as [r Hr]; [lia|].
+        cbn [C07Var.resolve_var]. rewrite Hv, Hln, Ea. fold k. rewrite Hc, Ee. cbn [negb].
+        destruct (subst_each_total Fe (ps ++ [k]) (e0 :: erest) HFe f) as [r Hr]; [lia|].
         rewrite Hr. eauto.
     - destruct (Bargs ps) as [Fa HFa].
       exists (S (S Fa)). intros f Hf. destruct f as [|f]; [lia|].
@@ -353,20 +382,67 @@ Theorem cycle_is_erased :
   solved_tokens env 5 [VAR "--x" [TLit ","; TAtom 7]] = Some [TAtom 1].
 Proof. reflexivity. Qed.
 
-(* 2. the fallback loses its commas: var(--u, a, b) gives "a b" where CSS substitutes "a, b" *)
-Theorem fallback_commas_lost :
+(* the fallback is the textual remainder after the first comma, commas included: what the grammar
+   var( <custom-property-name> [, <declaration-value>]? ) says (css_fallback) *)
+Lemma all_ws_filtered (w : list tok) (l : list tok) :
+  Forall (fun t => is_ws t = true) w -> remove_whitespace (w ++ l) = remove_whitespace l.
+Proof.
+  induction 1 as [|t w Ht _ IH]; [reflexivity|]. unfold remove_whitespace in *. cbn [app filter]. now rewrite Ht.
+Qed.
+
+Lemma after_first_comma_ws (w : list tok) (l : list tok) :
+  Forall (fun t => is_ws t = true) w -> after_first_comma (w ++ l) = after_first_comma l.
+Proof.
+  induction 1 as [|t w Ht _ IH]; [reflexivity|]. cbn [app after_first_comma].
+  destruct t; try discriminate; exact IH.
+Qed.
+
+Theorem fallback_is_textual_remainder w1 name w2 rest :
+  Forall (fun t => is_ws t = true) w1 -> Forall (fun t => is_ws t = true) w2 ->
+  is_ws name = false -> is_comma name = false ->
+  impl_fallback (w1 ++ name :: w2 ++ TLit "," :: rest) = css_fallback (w1 ++ name :: w2 ++ TLit "," :: rest) /\
+  impl_fallback (w1 ++ name :: w2 ++ TLit "," :: rest) = remove_whitespace rest.
+Proof.
+  intros H1 H2 Hn Hc. unfold impl_fallback, css_fallback.
+  rewrite (all_ws_filtered w1), (after_first_comma_ws w1) by assumption.
+  assert (A : remove_whitespace (name :: w2 ++ TLit "," :: rest) = name :: TLit "," :: remove_whitespace rest).
+  { change (name :: w2 ++ TLit "," :: rest) with ([name] ++ (w2 ++ TLit "," :: rest))%list.
+    unfold remove_whitespace at 1. rewrite filter_app. cbn [filter]. rewrite Hn. cbn [negb app].
+    f_equal. fold (remove_whitespace (w2 ++ TLit "," :: rest)). now rewrite (all_ws_filtered w2). }
+  rewrite A. cbn [tl after_first_comma]. rewrite Hc.
+  rewrite (after_first_comma_ws w2) by assumption. cbn [after_first_comma is_comma is_lit String.eqb].
+  rewrite ?String.eqb_refl. split; reflexivity.
+Qed.
+
+Example fallback_commas_kept :
   let env := fun _ : string => @nil tok in
   let args := [TIdent "--u" "--u"; TLit ","; TWs; TIdent "a" "a"; TLit ","; TWs; TIdent "b" "b"] in
-  resolve_var env 2 [] (TFunc "var" "var" args) = Some (RToks [TIdent "a" "a"; TIdent "b" "b"]) /\
-  css_fallback args = [TIdent "a" "a"; TLit ","; TIdent "b" "b"].
-Proof. split; reflexivity. Qed.
+  resolve_var env 2 [] (TFunc "var" "var" args) = Some (RToks [TIdent "a" "a"; TLit ","; TIdent "b" "b"]).
+Proof. reflexivity. Qed.
 
-(* 3. two custom properties that differ by - / _ are one: var(--a-b) reads --a_b *)
-Theorem dash_underscore_collide :
-  impl_key "--a-b" = impl_key "--a_b" /\ "--a-b" <> "--a_b".
-Proof. split; [reflexivity|discriminate]. Qed.
+(* distinct names are distinct properties: the key keeps the exact name *)
+Theorem distinct_names_distinct_properties x y :
+  prefix "--" x = true -> prefix "--" y = true -> impl_key x = impl_key y -> x = y.
+Proof.
+  intros Hx Hy H.
+  assert (D : forall n, prefix "--" n = true -> n = String "-" (String "-" (drop 2 n))).
+  { intros n Hn. destruct n as [|c1 [|c2 r]]; try discriminate Hn.
+    - change (prefix "--" (String c1 "")) with (if ascii_dec "-" c1 then false else false) in Hn.
+      destruct (ascii_dec "-" c1); discriminate.
+    - change (prefix "--" (String c1 (String c2 r)))
+        with (if ascii_dec "-" c1 then (if ascii_dec "-" c2 then prefix "" r else false) else false) in Hn.
+      destruct (ascii_dec "-" c1); [|discriminate]. destruct (ascii_dec "-" c2); [|discriminate]. subst. reflexivity. }
+  unfold impl_key, var_key in H.
+  assert (E : drop 2 x = drop 2 y).
+  { change ("__" ++ drop 2 x)%string with (String "_" (String "_" (drop 2 x))) in H.
+    change ("__" ++ drop 2 y)%string with (String "_" (String "_" (drop 2 y))) in H. now inversion H. }
+  rewrite (D x Hx), (D y Hy), E. reflexivity.
+Qed.
 
-(* 4. an undefined custom property without fallback is not "invalid at computed-value time": the var() is erased
+Example dash_underscore_distinct : impl_key "--a-b" <> impl_key "--a_b".
+Proof. discriminate. Qed.
+
+(* 2. an undefined custom property without fallback is not "invalid at computed-value time": the var() is erased
    and the rest of the declaration is validated - padding: var(--p) 2px computes as padding: 2px (finding
    var:undefined-dropped; only a value made of the var() alone ends with no tokens, which solve() refuses) *)
 Theorem undefined_var_is_erased :
@@ -376,14 +452,9 @@ Theorem undefined_var_is_erased :
 Proof. split; reflexivity. Qed.
 
 Theorem var_refuted :
-  (let env := fun k => if String.eqb k "__x" then [TAtom 1; VAR "--x" []] else [] in
-   solved_tokens env 5 [VAR "--x" [TLit ","; TAtom 7]] = Some [TAtom 1]) /\
-  (let env := fun _ : string => @nil tok in
-   let args := [TIdent "--u" "--u"; TLit ","; TWs; TIdent "a" "a"; TLit ","; TWs; TIdent "b" "b"] in
-   resolve_var env 2 [] (TFunc "var" "var" args) = Some (RToks [TIdent "a" "a"; TIdent "b" "b"]) /\
-   css_fallback args = [TIdent "a" "a"; TLit ","; TIdent "b" "b"]) /\
-  (impl_key "--a-b" = impl_key "--a_b" /\ "--a-b" <> "--a_b").
-Proof. split; [exact cycle_is_erased|]. split; [exact fallback_commas_lost|exact dash_underscore_collide]. Qed.
+  let env := fun k => if String.eqb k "__x" then [TAtom 1; VAR "--x" []] else [] in
+  solved_tokens env 5 [VAR "--x" [TLit ","; TAtom 7]] = Some [TAtom 1].
+Proof. exact cycle_is_erased. Qed.
 
 (* a var()-free function next to a var() inside a function is kept (it used to raise) *)
 Example plain_function_argument_kept :
